@@ -216,6 +216,23 @@ def stream_read_profile(P):
                 return None if a is None else eval_size_fn(size_tab, a)
             if isinstance(e, ast.Subscript) and isinstance(e.slice, ast.Constant) and e.slice.value == 0 and nreads[0] == 1:
                 return first        # the first octet read from the stream
+            if isinstance(e, ast.Constant) and isinstance(e.value, str):
+                return e.value
+            if isinstance(e, ast.Tuple):
+                vs = [ev(x) for x in e.elts]
+                return None if any(v is None for v in vs) else tuple(vs)
+            if isinstance(e, ast.Subscript) and isinstance(e.value, ast.Dict) and all(k is not None for k in e.value.keys):
+                # a lookup table indexed by an evaluated number (a missing key raises KeyError: no read is made)
+                k = ev(e.slice)
+                if k is None:
+                    return None
+                for kk, vv in zip(e.value.keys, e.value.values):
+                    if ev(kk) == k:
+                        return ev(vv)
+                raise AnalysisError(f'read_tl_num_from_stream: the lookup table has no entry for first octet {first:#x}')
+            if isinstance(e, ast.Subscript) and isinstance(ev(e.value), tuple) and isinstance(ev(e.slice), int):
+                t_, i_ = ev(e.value), ev(e.slice)
+                return t_[i_] if -len(t_) <= i_ < len(t_) else None
             if isinstance(e, ast.Compare) and len(e.ops) == 1:
                 a, b = ev(e.left), ev(e.comparators[0])
                 if a is None or b is None:
@@ -239,6 +256,13 @@ def stream_read_profile(P):
                         env[s.targets[0].id] = v
                     else:
                         env.pop(s.targets[0].id, None)
+                elif isinstance(s, ast.Assign) and len(s.targets) == 1 and isinstance(s.targets[0], ast.Tuple) and all(isinstance(t, ast.Name) for t in s.targets[0].elts):
+                    v = ev(s.value)
+                    for j, t in enumerate(s.targets[0].elts):
+                        if isinstance(v, tuple) and len(v) == len(s.targets[0].elts) and v[j] is not None:
+                            env[t.id] = v[j]
+                        else:
+                            env.pop(t.id, None)
                 elif isinstance(s, ast.If):
                     c = ev(s.test)
                     if c is None:
